@@ -4,6 +4,10 @@ Run-time vocabulary of the definitions that `extract/tr.go` regenerates from the
 -/
 namespace Agd.TrPrelude
 
+/-- What translated code can observe of a pointer (interface, map, slice, …) to an abstract object:
+whether it is non-nil. -/
+abbrev AbsPtr := Bool
+
 /-- Go's `cmp.Or` over errors: the first non-nil one. -/
 def firstErr : List (Option String) → Option String
   | [] => none
@@ -18,6 +22,78 @@ def goDiv? (f : Int → Int → Int) (a b : Int) : Option Int := if b = 0 then n
 
 /-- Result of an arithmetic operation on an unsigned integer type with `m` values (`m = 2^width`). -/
 def goWrapU (m : Int) (x : Int) : Int := x % m
+
+/-- `xs[i]`: an index out of range is a run-time panic (`none`). -/
+def goIndex? {α : Type} (xs : List α) (i : Int) : Option α :=
+  if i < 0 then none else xs[i.toNat]?
+
+/-- One iteration of a translated `for … range` loop. -/
+inductive Step (σ ρ : Type) where
+  /-- fall through to the next element (also `continue`) -/
+  | next (s : σ)
+  /-- `break` -/
+  | brk (s : σ)
+  /-- `return` of the enclosing function -/
+  | ret (r : ρ)
+
+/-- `for i, x := range xs { … }` with loop state `σ`: the final state, or the value returned from
+inside the loop. -/
+def goRangeFrom {α σ ρ : Type} (i : Int) : List α → σ → (σ → Int → α → Step σ ρ) → σ ⊕ ρ
+  | [], s, _ => .inl s
+  | x :: xs, s, f =>
+    match f s i x with
+    | .next s' => goRangeFrom (i + 1) xs s' f
+    | .brk s' => .inl s'
+    | .ret r => .inr r
+
+def goRange {α σ ρ : Type} (xs : List α) (s : σ) (f : σ → Int → α → Step σ ρ) : σ ⊕ ρ :=
+  goRangeFrom 0 xs s f
+
+/-- The same with a body that may panic (`none`). -/
+def goRangeFrom? {α σ ρ : Type} (i : Int) : List α → σ → (σ → Int → α → Option (Step σ ρ)) → Option (σ ⊕ ρ)
+  | [], s, _ => some (.inl s)
+  | x :: xs, s, f =>
+    match f s i x with
+    | none => none
+    | some (.next s') => goRangeFrom? (i + 1) xs s' f
+    | some (.brk s') => some (.inl s')
+    | some (.ret r) => some (.inr r)
+
+def goRange? {α σ ρ : Type} (xs : List α) (s : σ) (f : σ → Int → α → Option (Step σ ρ)) : Option (σ ⊕ ρ) :=
+  goRangeFrom? 0 xs s f
+
+/-! ### Models of the few `strings` functions the translated code uses (on valid UTF-8 text) -/
+
+def goHasPrefix (s p : String) : Bool := p.toList.isPrefixOf s.toList
+def goHasSuffix (s p : String) : Bool := p.toList.isSuffixOf s.toList
+def goTrimPrefix (s p : String) : String :=
+  if p.toList.isPrefixOf s.toList then String.ofList (s.toList.drop p.toList.length) else s
+def goTrimSuffix (s p : String) : String :=
+  if p.toList.isSuffixOf s.toList then String.ofList (s.toList.take (s.toList.length - p.toList.length)) else s
+
+/-- Position-wise search: the text before the first occurrence of `sep` (non-empty) and the rest after it. -/
+def cutList (sep : List Char) : List Char → Option (List Char × List Char)
+  | [] => if sep.isEmpty then some ([], []) else none
+  | c :: cs =>
+    if sep.isPrefixOf (c :: cs) then some ([], (c :: cs).drop sep.length)
+    else match cutList sep cs with
+      | none => none
+      | some (a, b) => some (c :: a, b)
+
+/-- `strings.SplitN(s, sep, n)` for a non-empty separator: at most `n` pieces when `n > 0`, all of
+them when `n < 0`, none (`nil`) when `n = 0`.  `fuel` bounds the recursion by the text length. -/
+def splitListN (sep : List Char) : Nat → Int → List Char → List (List Char)
+  | 0, _, s => [s]
+  | fuel + 1, n, s =>
+    if n = 1 then [s]
+    else match cutList sep s with
+      | none => [s]
+      | some (a, b) => a :: splitListN sep fuel (n - 1) b
+
+def goSplitN (s sep : String) (n : Int) : List String :=
+  if n = 0 then [] else (splitListN sep.toList (s.toList.length + 1) n s.toList).map String.ofList
+def goSplit (s sep : String) : List String := goSplitN s sep (-1)
+def goContains (s sub : String) : Bool := (cutList sub.toList s.toList).isSome
 
 @[simp] theorem firstErr_nil : firstErr [] = none := rfl
 @[simp] theorem firstErr_none (r : List (Option String)) : firstErr (none :: r) = firstErr r := rfl
